@@ -6,6 +6,24 @@
 // says: synced-to stamp, remembered block hashes, confirmed and unconfirmed
 // transaction records.
 //
+// Two ways of delivering a notification, chosen per case (input field
+// "dispatch"): through the exported wrappers of the handlers
+// (wallet/verif_hooks.go), or through the wallet's own goroutine
+// handleChainNotifications (wallet/chainntfns.go): the body of its switch is
+// inline, so there is nothing a hook could call; the notification is sent on
+// the backend's (unbuffered) notification channel, followed by a value of a
+// type the switch does not know - the second send completes when the
+// goroutine is back at its select, i.e. when the first notification has been
+// processed.  chain.FilteredBlockConnected, *chain.RescanProgress and
+// *chain.RescanFinished go that way too.
+//
+// Start-up (op "offline") always runs the real thing: SynchronizeRPC,
+// chain.ClientConnected, birthdaySanityCheck, waitForSync / syncWithChain.
+// Every attempt of waitForSync begins with chainClient.BackEnd(); the backend
+// wrapper stops there, so the harness knows when an attempt has failed (the
+// next one begins) and can look at the wallet / let the backend catch up
+// before the next attempt runs.
+//
 // One JSON object per case: {"in":…, "obs":…, "oracle":[…], "tags":[…], "site":"…"}.
 // The oracle states property C15 directly on the observations.
 package main
@@ -15,6 +33,7 @@ import (
 	"crypto/sha256"
 	"encoding/binary"
 	"encoding/json"
+	"errors"
 	"flag"
 	"fmt"
 	"math"
@@ -29,6 +48,7 @@ import (
 	"github.com/btcsuite/btcd/wire"
 	"github.com/btcsuite/btcwallet/chain"
 	"github.com/btcsuite/btcwallet/waddrmgr"
+	"github.com/btcsuite/btcwallet/wallet"
 	"github.com/btcsuite/btcwallet/walletdb"
 	"github.com/btcsuite/btcwallet/wtxmgr"
 
@@ -43,10 +63,15 @@ import (
 // blockSpec: wallet transactions of a new block. Pre are notified before the
 // block-connected notification (btcd order), Post after it (bitcoind order).
 // CB: the block's coinbase pays the wallet ("pre"/"post" = where it is notified).
+//
+// Filt ("pre"/"post"): all wallet transactions of the block are delivered in
+// ONE chain.FilteredBlockConnected before / after the block-connected
+// notification instead of one chain.RelevantTx each.
 type blockSpec struct {
 	Pre  []int  `json:"pre,omitempty"`
 	Post []int  `json:"post,omitempty"`
 	CB   string `json:"cb,omitempty"`
+	Filt string `json:"filt,omitempty"`
 }
 
 // staleSpec: an extra notification inserted before position At of the
@@ -56,6 +81,9 @@ type blockSpec struct {
 //	future: BlockDisconnected for height tip+1+Arg%3 with an unknown hash
 //	wrong : BlockDisconnected for height tip-Arg%9 (>= 0) with an unknown hash
 //	gap   : BlockConnected for height (highest tip so far)+2+Arg%3 (unknown block)
+//	rescan_progress / rescan_finished (dispatch only): *chain.RescanProgress /
+//	        *chain.RescanFinished naming height tip-Arg%4 (>= 0) of the chain
+//	        delivered so far (catchUpHashes has nothing to do)
 type staleSpec struct {
 	At   int    `json:"at"`
 	Kind string `json:"kind"`
@@ -66,25 +94,41 @@ type evoSpec struct {
 	Depth  int         `json:"depth"`
 	Blocks []blockSpec `json:"blocks,omitempty"`
 	Bulk   int         `json:"bulk,omitempty"` // that many further empty blocks
-	// Shorter (offline evolutions, hand-written replays only; never
-	// generated): allow the new branch to be shorter than the replaced one.
+	// Shorter (offline evolutions): allow the new branch to be shorter than
+	// the replaced one (the backend is then lower than the wallet).
 	Shorter bool `json:"shorter,omitempty"`
 }
 
 // opSpec.Op: "evolve" (online: notifications are delivered), "unmined"
-// (RelevantTx without block), "birthday" (store a birthday block: enables the
-// predecessor check of PutSyncedTo), "offline" (reopen the wallet, let the
-// chain evolve unobserved, then run the real start-up synchronisation).
+// (RelevantTx without block), "birthday" (store the block at Height of the
+// current chain as birthday block, as the migration of an old wallet does:
+// enables the predecessor check of PutSyncedTo), "offline" (reopen the wallet,
+// let the chain evolve unobserved, then run the real start-up synchronisation).
+//
+// offline: First = do not pin a birthday block beforehand: the start-up is
+// the wallet's first synchronisation (syncWithChain with a nil birthday
+// stamp); honoured only while the wallet is as created.  Then = evolutions of
+// the backend applied one after each FAILED start-up attempt (the backend
+// catches up).  NotifyFail = that many NotifyBlocks calls return an error
+// (hand-written replays only).
 type opSpec struct {
-	Op    string      `json:"op"`
-	Evo   *evoSpec    `json:"evo,omitempty"`
-	Stale []staleSpec `json:"stale,omitempty"`
-	Tx    int         `json:"tx,omitempty"`
-	Evos  []evoSpec   `json:"evos,omitempty"`
+	Op         string      `json:"op"`
+	Evo        *evoSpec    `json:"evo,omitempty"`
+	Stale      []staleSpec `json:"stale,omitempty"`
+	Tx         int         `json:"tx,omitempty"`
+	Evos       []evoSpec   `json:"evos,omitempty"`
+	Height     int         `json:"height,omitempty"`
+	First      bool        `json:"first,omitempty"`
+	Then       []evoSpec   `json:"then,omitempty"`
+	NotifyFail int         `json:"notify_fail,omitempty"`
 }
 
+// Birthday: the wallet's birthday in seconds after the simulated chain's
+// genesis block (block h is 600*h seconds after it); 0 = long before it.
 type c15Input struct {
 	WalletSeed int64    `json:"wallet_seed"`
+	Dispatch   bool     `json:"dispatch,omitempty"`
+	Birthday   int64    `json:"birthday,omitempty"`
 	Ops        []opSpec `json:"ops"`
 }
 
@@ -98,26 +142,34 @@ type metaJ struct {
 
 // event: what was done (model operation) and what the wallet reported after it.
 type event struct {
-	K       string     `json:"k"` // connect|disconnect|tx|startup|rescan_finished|reopen|set_synced|set_birthday
+	K       string     `json:"k"` // connect|disconnect|tx|filtered|startup|rescan_progress|rescan_finished|reopen|set_synced|set_birthday
 	B       *metaJ     `json:"b,omitempty"`
 	Tx      int64      `json:"tx,omitempty"`
 	CB      bool       `json:"cb,omitempty"`
-	Backend [][4]int64 `json:"backend,omitempty"` // startup / rescan_finished: best chain as runs (n, id0, t0, dt)
+	Txs     [][2]int64 `json:"txs,omitempty"`     // filtered: (txid, coinbase)
+	Backend [][4]int64 `json:"backend,omitempty"` // startup / rescan_*: best chain as runs (n, id0, t0, dt)
 	Height  int64      `json:"height,omitempty"`
 	Flag    bool       `json:"flag,omitempty"`
+	First   bool       `json:"first,omitempty"` // startup: no birthday block was stored when the backend connected
+	Loc     *metaJ     `json:"loc,omitempty"`   // startup with First: what locateBirthdayBlock returns on Backend
 	Site    string     `json:"site"`
 	Obs     *obsJ      `json:"obs,omitempty"`
 }
 
+// Err: a start-up attempt did not reach the rescan request / the hook's
+// walletdb.Update returned an error.  ErrUnobserved: the notification went
+// through the dispatch goroutine, which only logs a handler's error.
 type obsJ struct {
-	Err         bool       `json:"err"`
-	ErrText     string     `json:"err_text,omitempty"`
-	Synced      metaJ      `json:"synced"`
-	ChainSynced bool       `json:"chain_synced"`
-	Probes      [][2]int64 `json:"probes"` // height, hash id (-1 = not stored)
-	Mined       [][3]int64 `json:"mined"`  // txid, height, hash id
-	Unmined     []int64    `json:"unmined"`
-	ObsErr      string     `json:"obs_err,omitempty"`
+	Err           bool       `json:"err"`
+	ErrUnobserved bool       `json:"err_unobserved,omitempty"`
+	ErrText       string     `json:"err_text,omitempty"`
+	Synced        metaJ      `json:"synced"`
+	ChainSynced   bool       `json:"chain_synced"`
+	Bday          *metaJ     `json:"bday,omitempty"` // Manager.BirthdayBlock (nil = not set)
+	Probes  [][2]int64 `json:"probes"` // height, hash id (-1 = not stored)
+	Mined   [][3]int64 `json:"mined"`  // txid, height, hash id
+	Unmined []int64    `json:"unmined"`
+	ObsErr  string     `json:"obs_err,omitempty"`
 }
 
 type c15Obs struct {
@@ -138,20 +190,31 @@ type c15Case struct {
 // ---------------------------------------------------------------- backend wrapper
 
 // gated wraps the simulated chain: notifications pass through a forwarder
-// that records them, and NotifyBlocks (called by syncWithChain right after
-// its rollback transaction) stops until the harness has looked at the wallet.
+// that records them; BackEnd (called at the beginning of every syncWithChain
+// attempt, and nowhere else) and NotifyBlocks (called by syncWithChain right
+// after its rollback transaction) stop until the harness has looked at the
+// wallet.
 type gated struct {
 	*simchain.Chain
-	out  chan interface{}
-	done chan struct{}
-	gate chan chan struct{}
-	mu   sync.Mutex
-	seen []interface{}
+	out        chan interface{}
+	done       chan struct{}
+	gate       chan chan struct{}
+	attempts   chan chan struct{}
+	notifyFail int // NotifyBlocks calls that still fail (read and written by the wallet's goroutine only)
+	mu         sync.Mutex
+	seen       []interface{}
+	once       sync.Once
+	fwdDone    chan struct{} // closed when the forwarder has ended
 }
 
+// barrier is a notification the dispatch switch has no case for.
+type barrier struct{}
+
 func newGated(c *simchain.Chain) *gated {
-	g := &gated{Chain: c, out: make(chan interface{}), done: make(chan struct{}), gate: make(chan chan struct{})}
+	g := &gated{Chain: c, out: make(chan interface{}), done: make(chan struct{}), gate: make(chan chan struct{}),
+		attempts: make(chan chan struct{}), fwdDone: make(chan struct{})}
 	go func() {
+		defer close(g.fwdDone)
 		for {
 			select {
 			case n := <-c.Notifications():
@@ -180,10 +243,45 @@ func (g *gated) NotifyBlocks() error {
 		<-rel
 	case <-g.done:
 	}
+	if g.notifyFail > 0 {
+		g.notifyFail--
+		return errors.New("simulated backend: notifyblocks failed")
+	}
 	return nil
 }
 
-func (g *gated) stop() { close(g.done) }
+func (g *gated) BackEnd() string {
+	rel := make(chan struct{})
+	select {
+	case g.attempts <- rel:
+		select {
+		case <-rel:
+		case <-g.done:
+		}
+	case <-g.done:
+	}
+	return g.Chain.BackEnd()
+}
+
+// deliver sends one notification to the wallet's handleChainNotifications
+// goroutine and returns when the goroutine has processed it.
+func (g *gated) deliver(n interface{}) error {
+	for _, x := range []interface{}{n, barrier{}} {
+		select {
+		case g.out <- x:
+		case <-time.After(30 * time.Second):
+			return fmt.Errorf("the notification goroutine does not take a %T within 30s", x)
+		}
+	}
+	return nil
+}
+
+// stop ends the forwarder (and waits for it: it must not take a notification
+// meant for its successor) and releases whoever waits in a gate.
+func (g *gated) stop() {
+	g.once.Do(func() { close(g.done) })
+	<-g.fwdDone
+}
 
 func (g *gated) taken() []interface{} {
 	g.mu.Lock()
@@ -222,7 +320,12 @@ type runner struct {
 	onBest   map[int]int32     // wallet tx id -> height on the current best chain
 	stale    []wtxmgr.BlockMeta
 	maxTip   int32
-	birthday bool
+	birthday bool   // a birthday block is stored
+	bdayH    int32  // its height
+	follow   int32  // lowest height above genesis whose hash the wallet ever stored (0: it follows from genesis)
+	pristine bool   // the wallet is as created (nothing delivered, no birthday block)
+	stuck    bool   // a start-up could not complete: the case ends
+	dispErr  string // the dispatch goroutine stopped taking notifications
 
 	events []event
 	tags   map[string]bool
@@ -362,10 +465,17 @@ var (
 	wtxmgrNS   = []byte("wtxmgr")
 )
 
+// errUnobserved marks an observation after a notification that went through
+// the dispatch goroutine.
+var errUnobserved = errors.New("unobserved")
+
 func (r *runner) observe(herr error) *obsJ {
 	w := r.env.W
-	o := &obsJ{Err: herr != nil, Probes: [][2]int64{}, Mined: [][3]int64{}, Unmined: []int64{}}
-	if herr != nil {
+	o := &obsJ{Probes: [][2]int64{}, Mined: [][3]int64{}, Unmined: []int64{}}
+	if herr == errUnobserved {
+		o.ErrUnobserved = true
+	} else if herr != nil {
+		o.Err = true
 		o.ErrText = herr.Error()
 	}
 	st := w.Manager.SyncedTo()
@@ -374,6 +484,14 @@ func (r *runner) observe(herr error) *obsJ {
 	probes := r.probes()
 	err := walletdb.View(r.env.DB, func(tx walletdb.ReadTx) error {
 		ans := tx.ReadBucket(waddrmgrNS)
+		bb, _, err := w.Manager.BirthdayBlock(ans)
+		switch {
+		case err == nil:
+			o.Bday = &metaJ{H: int64(bb.Height), Hash: r.intern(bb.Hash), T: bb.Timestamp.Unix()}
+		case waddrmgr.IsError(err, waddrmgr.ErrBirthdayBlockNotSet):
+		default:
+			return err
+		}
 		for _, h := range probes {
 			hash, err := w.Manager.BlockHash(ans, h)
 			switch {
@@ -386,7 +504,7 @@ func (r *runner) observe(herr error) *obsJ {
 			}
 		}
 		tns := tx.ReadBucket(wtxmgrNS)
-		err := w.TxStore.RangeTransactions(tns, 0, math.MaxInt32-1, func(ds []wtxmgr.TxDetails) (bool, error) {
+		err = w.TxStore.RangeTransactions(tns, 0, math.MaxInt32-1, func(ds []wtxmgr.TxDetails) (bool, error) {
 			for _, d := range ds {
 				o.Mined = append(o.Mined, [3]int64{r.txIDOf(d.Hash), int64(d.Block.Height), r.intern(d.Block.Hash)})
 			}
@@ -418,6 +536,10 @@ func (r *runner) observe(herr error) *obsJ {
 		return a[2] < b[2]
 	})
 	sort.Slice(o.Unmined, func(i, j int) bool { return o.Unmined[i] < o.Unmined[j] })
+	r.birthday = o.Bday != nil
+	if o.Bday != nil {
+		r.bdayH = int32(o.Bday.H)
+	}
 	return o
 }
 
@@ -437,13 +559,36 @@ func (r *runner) violate(kind, site, detail string) {
 }
 
 // lowest height for which the property makes a claim: the wallet follows the
-// chain from genesis here, and PutSyncedTo keeps MaxReorgDepth entries.
+// chain from the block it declares as its birthday block (from genesis
+// without one), and PutSyncedTo keeps MaxReorgDepth entries.
 func (r *runner) lo() int32 {
 	lo := r.maxTip - waddrmgr.MaxReorgDepth + 1
+	if r.birthday && r.bdayH > lo {
+		lo = r.bdayH
+	}
 	if lo < 0 {
 		lo = 0
 	}
 	return lo
+}
+
+// deepest online reorganisation that stays inside the heights the wallet
+// stores (the parent of the lowest replaced block and its predecessor are
+// remembered, or the parent is the genesis block of a wallet that follows
+// the chain from there).
+func (r *runner) maxOnlineDepth() int {
+	tip := r.sc.Tip().Height
+	lo := r.maxTip - waddrmgr.MaxReorgDepth + 1
+	if r.follow > lo {
+		lo = r.follow
+	}
+	if lo <= 0 {
+		return int(tip)
+	}
+	if d := int(tip - lo - 1); d > 0 {
+		return d
+	}
+	return 0
 }
 
 // check states the three online clauses of the property against the chain
@@ -485,8 +630,21 @@ func (r *runner) push(e event) { r.events = append(r.events, e) }
 
 // ---- notifications through the wallet's handlers
 
+// notify delivers one notification: through the dispatch goroutine (the
+// handler's error is then not observable) or through the hook.
+func (r *runner) notify(n interface{}, hook func() error) error {
+	r.pristine = false
+	if r.in.Dispatch {
+		if err := r.g.deliver(n); err != nil {
+			r.dispErr = err.Error()
+		}
+		return errUnobserved
+	}
+	return hook()
+}
+
 func (r *runner) connect(b *simchain.Block) {
-	err := r.env.W.VerifConnectBlock(b.Meta())
+	err := r.notify(chain.BlockConnected(b.Meta()), func() error { return r.env.W.VerifConnectBlock(b.Meta()) })
 	r.notified = append(r.notified, b)
 	if b.Height > r.maxTip {
 		r.maxTip = b.Height
@@ -498,7 +656,7 @@ func (r *runner) connect(b *simchain.Block) {
 }
 
 func (r *runner) disconnect(b *simchain.Block) {
-	err := r.env.W.VerifDisconnectBlock(b.Meta())
+	err := r.notify(chain.BlockDisconnected(b.Meta()), func() error { return r.env.W.VerifDisconnectBlock(b.Meta()) })
 	r.notified = r.notified[:len(r.notified)-1]
 	r.stale = append(r.stale, b.Meta())
 	o := r.observe(err)
@@ -526,15 +684,84 @@ func (r *runner) relevantTx(id int, coinbase bool, b *simchain.Block, pre bool) 
 	if err != nil {
 		panic(err)
 	}
-	herr := r.env.W.VerifAddRelevantTx(rec, bm)
+	herr := r.notify(chain.RelevantTx{TxRecord: rec, Block: bm}, func() error { return r.env.W.VerifAddRelevantTx(rec, bm) })
 	o := r.observe(herr)
 	r.push(event{K: "tx", Tx: int64(id), CB: coinbase, B: mj, Site: "RelevantTx", Obs: o})
 	r.check(o, "RelevantTx")
 }
 
+// filtered delivers the block's wallet transactions in one
+// chain.FilteredBlockConnected.
+func (r *runner) filtered(b *simchain.Block, ids []int, cbID int, pre bool) {
+	var recs []*wtxmgr.TxRecord
+	var txs [][2]int64
+	add := func(id int, cb bool) {
+		rec, err := wtxmgr.NewTxRecordFromMsgTx(r.walletTx(id, cb), b.Time)
+		if err != nil {
+			panic(err)
+		}
+		recs = append(recs, rec)
+		c := int64(0)
+		if cb {
+			c = 1
+		}
+		txs = append(txs, [2]int64{int64(id), c})
+	}
+	if cbID != 0 {
+		add(cbID, true)
+	}
+	for _, id := range ids {
+		add(id, false)
+	}
+	if pre && len(recs) > 0 {
+		r.pending = b
+	}
+	m := b.Meta()
+	herr := r.notify(chain.FilteredBlockConnected{Block: &m, RelevantTxs: recs},
+		func() error { return r.env.W.VerifFilteredBlockConnected(&m, recs) })
+	o := r.observe(herr)
+	r.push(event{K: "filtered", B: r.meta(b), Txs: txs, Site: "FilteredBlockConnected", Obs: o})
+	r.check(o, "FilteredBlockConnected")
+	r.tag("filtered_block_connected")
+	if len(recs) > 1 {
+		r.tag("filtered_block_connected_several_txs")
+	}
+}
+
+// rescanNtfn delivers a *chain.RescanProgress / *chain.RescanFinished for a
+// block the notifications delivered so far have already described.
+func (r *runner) rescanNtfn(s staleSpec) {
+	if !r.in.Dispatch {
+		return // catchUpHashes is a closure of handleChainNotifications: no hook can reach it
+	}
+	tip := r.notified[len(r.notified)-1].Height
+	h := tip - int32(s.Arg%4)
+	if h < 0 {
+		h = 0
+	}
+	b := r.notified[h]
+	hash := b.Hash
+	var n interface{}
+	kind, site := "rescan_progress", "RescanProgress(online)"
+	if s.Kind == "rescan_finished" {
+		kind, site = "rescan_finished", "RescanFinished(online)"
+		n = &chain.RescanFinished{Hash: &hash, Height: h, Time: b.Time}
+	} else {
+		n = &chain.RescanProgress{Hash: hash, Height: h, Time: b.Time}
+	}
+	herr := r.notify(n, nil)
+	o := r.observe(herr)
+	r.push(event{K: kind, Backend: r.backendRuns(), Height: int64(h), Site: site, Obs: o})
+	r.check(o, site)
+	r.tag("online_" + kind)
+}
+
 func (r *runner) staleNtfn(s staleSpec) {
 	tip := r.notified[len(r.notified)-1].Height
 	switch s.Kind {
+	case "rescan_progress", "rescan_finished":
+		r.rescanNtfn(s)
+		return
 	case "gap":
 		if !r.birthday {
 			return // without a birthday block the wallet would jump (not a chain evolution)
@@ -543,7 +770,7 @@ func (r *runner) staleNtfn(s staleSpec) {
 		// entry at height-1 would satisfy the predecessor check)
 		bm := wtxmgr.BlockMeta{Block: wtxmgr.Block{Hash: r.fakeHash(), Height: r.maxTip + 2 + int32(s.Arg%3)},
 			Time: time.Unix(1700000000, 0)}
-		err := r.env.W.VerifConnectBlock(bm)
+		err := r.notify(chain.BlockConnected(bm), func() error { return r.env.W.VerifConnectBlock(bm) })
 		o := r.observe(err)
 		r.push(event{K: "connect", B: &metaJ{H: int64(bm.Height), Hash: r.intern(bm.Hash), T: bm.Time.Unix()},
 			Site: "BlockConnected(unknown future block)", Obs: o})
@@ -572,7 +799,7 @@ func (r *runner) staleNtfn(s staleSpec) {
 		bm = wtxmgr.BlockMeta{Block: wtxmgr.Block{Hash: r.fakeHash(), Height: h}, Time: time.Unix(1700000000, 0)}
 		r.tag("stale_unknown_hash_disconnect")
 	}
-	err := r.env.W.VerifDisconnectBlock(bm)
+	err := r.notify(chain.BlockDisconnected(bm), func() error { return r.env.W.VerifDisconnectBlock(bm) })
 	o := r.observe(err)
 	site := "BlockDisconnected(stale)"
 	r.push(event{K: "disconnect", B: &metaJ{H: int64(bm.Height), Hash: r.intern(bm.Hash), T: bm.Time.Unix()},
@@ -624,22 +851,27 @@ func (r *runner) dropFromBest(h int32) {
 }
 
 type step struct {
-	kind string // disconnect | connect | tx
+	kind string // disconnect | connect | tx | filtered
 	b    *simchain.Block
 	id   int
 	cb   bool
 	pre  bool
+	ids  []int // filtered: regular wallet transactions
+	cbID int   // filtered: coinbase transaction (0 = none)
 }
 
 func (r *runner) evolveOnline(e evoSpec, stale []staleSpec) {
 	depth := e.Depth
-	if max := int(r.sc.Tip().Height); depth > max {
+	if max := r.maxOnlineDepth(); depth > max {
 		depth = max
 	}
 	if depth > 0 {
 		r.tag("reorg")
 		if depth >= 3 {
 			r.tag("reorg_depth>=3")
+		}
+		if depth >= 10 {
+			r.tag("reorg_depth>=10")
 		}
 		for id, h := range r.onBest {
 			_ = id
@@ -674,6 +906,16 @@ func (r *runner) evolveOnline(e evoSpec, stale []staleSpec) {
 		if cb != 0 {
 			r.tag("wallet_coinbase_tx")
 		}
+		if bs.Filt != "" {
+			all := append(append([]int{}, pre...), post...)
+			f := step{kind: "filtered", b: b, ids: all, cbID: cb, pre: bs.Filt == "pre"}
+			if f.pre {
+				stream = append(stream, f, step{kind: "connect", b: b})
+			} else {
+				stream = append(stream, step{kind: "connect", b: b}, f)
+			}
+			continue
+		}
 		if cb != 0 && bs.CB == "pre" {
 			stream = append(stream, step{kind: "tx", b: b, id: cb, cb: true, pre: true})
 		}
@@ -694,13 +936,13 @@ func (r *runner) evolveOnline(e evoSpec, stale []staleSpec) {
 	si := 0
 	for pos := 0; pos <= len(stream); pos++ {
 		for si < len(stale) && (stale[si].At <= pos || pos == len(stream)) {
-			if len(r.oracle) > 0 {
+			if len(r.oracle) > 0 || r.dispErr != "" {
 				return
 			}
 			r.staleNtfn(stale[si])
 			si++
 		}
-		if pos == len(stream) || len(r.oracle) > 0 {
+		if pos == len(stream) || len(r.oracle) > 0 || r.dispErr != "" {
 			break
 		}
 		s := stream[pos]
@@ -711,52 +953,46 @@ func (r *runner) evolveOnline(e evoSpec, stale []staleSpec) {
 			r.connect(s.b)
 		case "tx":
 			r.relevantTx(s.id, s.cb, s.b, s.pre)
+		case "filtered":
+			r.filtered(s.b, s.ids, s.cbID, s.pre)
 		}
 	}
 }
 
-func (r *runner) setBirthday() error {
+// setBirthday stores the block at the given height of the chain delivered so
+// far as (verified) birthday block, unless one is stored already.
+func (r *runner) setBirthday(height int) error {
 	if r.birthday {
 		return nil
 	}
-	g := r.sc.At(0)
+	if height < 0 || height >= len(r.notified) {
+		height = len(r.notified) - 1
+	}
+	g := r.notified[height]
 	err := walletdb.Update(r.env.DB, func(tx walletdb.ReadWriteTx) error {
 		ns := tx.ReadWriteBucket(waddrmgrNS)
-		return r.env.W.Manager.SetBirthdayBlock(ns, waddrmgr.BlockStamp{Height: 0, Hash: g.Hash, Timestamp: g.Time}, true)
+		return r.env.W.Manager.SetBirthdayBlock(ns, waddrmgr.BlockStamp{Height: g.Height, Hash: g.Hash, Timestamp: g.Time}, true)
 	})
 	if err != nil {
 		return err
 	}
-	r.birthday = true
+	r.pristine = false
 	r.tag("birthday_block_set")
-	r.push(event{K: "set_birthday", Site: "SetBirthdayBlock", Obs: r.observe(nil)})
+	if height > 0 {
+		r.tag("birthday_block_above_genesis")
+	}
+	r.push(event{K: "set_birthday", B: r.meta(g), Site: "SetBirthdayBlock", Obs: r.observe(nil)})
 	return nil
 }
 
-// offline: the wallet is stopped, the chain evolves, the wallet is started
-// and synchronises with the real start-up code.
-func (r *runner) offline(evos []evoSpec) error {
-	if err := r.setBirthday(); err != nil {
-		return err
-	}
-	r.tag("offline_period")
-	if r.g != nil {
-		r.g.stop()
-		r.g = nil
-	}
-	if err := r.env.Reopen(0, nil); err != nil {
-		return err
-	}
-	r.push(event{K: "reopen", Site: "Reopen", Obs: r.observe(nil)})
-
-	before := append([]*simchain.Block{}, r.notified...)
-	minedBefore := r.events[len(r.events)-1].Obs.Mined
+// applyOffline lets the backend's chain evolve while nobody is told.
+func (r *runner) applyOffline(evos []evoSpec) {
 	for _, e := range evos {
 		depth := e.Depth
 		if max := int(r.sc.Tip().Height); depth > max {
 			depth = max
 		}
-		// a valid best chain does not get shorter
+		// a best chain normally does not get lower
 		if n := len(e.Blocks) + e.Bulk; n < depth && !e.Shorter {
 			depth = n
 		}
@@ -786,48 +1022,168 @@ func (r *runner) offline(evos []evoSpec) error {
 			r.tag("long_offline_extension")
 		}
 	}
-	// last common block of the wallet's chain and the backend's
-	common := int32(0)
-	for h := int32(0); int(h) < len(before) && r.sc.At(h) != nil && r.sc.At(h).Hash == before[h].Hash; h++ {
-		common = h
+}
+
+// attempt: what the harness knows about the syncWithChain attempt in flight.
+type attempt struct {
+	backend [][4]int64
+	loc     *metaJ
+	gate    bool // it reached the rescan request (NotifyBlocks)
+	lower   bool // the backend's tip was below the wallet's synced-to height
+}
+
+// offline: the wallet is stopped, the chain evolves, the wallet is started
+// and synchronises with the real start-up code.
+func (r *runner) offline(op opSpec) error {
+	first := op.First && r.pristine
+	if !first {
+		if err := r.setBirthday(0); err != nil {
+			return err
+		}
+	} else {
+		r.tag("first_sync")
 	}
-	tipOnChain := int(common) == len(before)-1
-	if !tipOnChain {
-		r.tag("startup_rollback")
+	r.pristine = false
+	r.tag("offline_period")
+	if r.g != nil {
+		r.g.stop()
+		r.g = nil
 	}
+	if err := r.env.Reopen(0, nil); err != nil {
+		return err
+	}
+	r.push(event{K: "reopen", Site: "Reopen", Obs: r.observe(nil)})
+
+	before := append([]*simchain.Block{}, r.notified...)
+	minedBefore := r.events[len(r.events)-1].Obs.Mined
+	bdayBefore := r.events[len(r.events)-1].Obs.Bday
+	r.applyOffline(op.Evos)
 
 	g := newGated(r.sc)
+	g.notifyFail = op.NotifyFail
 	r.g = g
+	notifyFail := op.NotifyFail
+	then := op.Then
 	r.env.W.SynchronizeRPC(g)
 	r.sc.Notify(chain.ClientConnected{})
 
-	// 1. the rollback part (syncWithChain stops in NotifyBlocks)
-	backend := r.backendRuns()
-	select {
-	case rel := <-g.gate:
-		o := r.observe(nil)
-		r.push(event{K: "startup", Backend: backend, Site: "syncWithChain", Obs: o})
-		exp := [][3]int64{}
-		for _, m := range minedBefore {
-			if tipOnChain || m[1] <= int64(common) {
-				exp = append(exp, m)
+	// last common block of the wallet's chain and the backend's (now)
+	commonNow := func() (int32, bool) {
+		common := int32(0)
+		for h := int32(0); int(h) < len(before) && r.sc.At(h) != nil && r.sc.At(h).Hash == before[h].Hash; h++ {
+			common = h
+		}
+		return common, int(common) == len(before)-1
+	}
+
+	// 1. attempts of syncWithChain until one reaches the rescan request and
+	// survives it
+	var cur *attempt
+	fails := 0
+	gateSeen := false
+	var backend [][4]int64
+attempts:
+	for {
+		select {
+		case rel := <-g.attempts:
+			// an attempt begins; the one before (if any) has returned an error
+			if cur != nil {
+				if !cur.gate {
+					o := r.observe(errors.New("the attempt returned an error before the rescan request"))
+					r.push(event{K: "startup", First: first, Loc: cur.loc, Backend: cur.backend,
+						Site: "syncWithChain(failed attempt)", Obs: o})
+					r.tag("startup_attempt_failed")
+					if cur.lower {
+						r.tag("startup_backend_lower_than_wallet")
+					} else if first && gateSeen {
+						r.tag("first_sync_repeated_after_late_failure")
+					} else {
+						r.tag("startup_fork_outside_stored_heights")
+					}
+				}
+				fails++
+				if len(then) > 0 {
+					r.applyOffline(then[:1])
+					then = then[1:]
+					fails = 0
+					r.tag("backend_catches_up_after_failed_attempt")
+				} else if fails >= 2 {
+					// nothing will change any more: the wallet repeats the failing attempt for ever
+					r.stuck = true
+					r.tag("startup_never_completes")
+					close(rel)
+					g.stop()
+					return nil
+				}
 			}
+			cur = &attempt{backend: r.backendRuns(), lower: r.sc.Tip().Height < r.env.W.Manager.SyncedTo().Height}
+			if first {
+				loc, err := wallet.VerifLocateBirthdayBlock(r.sc, r.env.W.Manager.Birthday())
+				if err != nil {
+					return err
+				}
+				cur.loc = &metaJ{H: int64(loc.Height), Hash: r.intern(loc.Hash), T: loc.Timestamp.Unix()}
+			}
+			close(rel)
+		case rel := <-g.gate:
+			// the rollback transaction has committed (syncWithChain stops in NotifyBlocks)
+			if cur == nil {
+				return fmt.Errorf("NotifyBlocks outside a start-up attempt")
+			}
+			cur.gate = true
+			gateSeen = true
+			backend = cur.backend
+			common, tipOnChain := commonNow()
+			if !tipOnChain {
+				r.tag("startup_rollback")
+			}
+			o := r.observe(nil)
+			r.push(event{K: "startup", First: first, Loc: cur.loc, Backend: backend, Site: "syncWithChain", Obs: o})
+			if !first {
+				exp := [][3]int64{}
+				for _, m := range minedBefore {
+					if tipOnChain || m[1] <= int64(common) {
+						exp = append(exp, m)
+					}
+				}
+				okSynced := o.Synced.H == int64(common) && o.Synced.Hash == r.intern(before[common].Hash)
+				if tipOnChain {
+					okSynced = o.Synced.H == int64(len(before)-1) && o.Synced.Hash == r.intern(before[len(before)-1].Hash)
+				}
+				if !okSynced || !sameRecs(exp, o.Mined) {
+					r.violate("startup_rollback_wrong_height", "syncWithChain", fmt.Sprintf(
+						"last common block %d (wallet tip on chain: %v): synced-to (%d, #%d), confirmed records %v, expected %v",
+						common, tipOnChain, o.Synced.H, o.Synced.Hash, o.Mined, exp))
+				}
+				if !tipOnChain && bdayBefore != nil && int64(common) <= bdayBefore.H && r.intern(before[common].Hash) != bdayBefore.Hash {
+					r.tag("startup_rollback_crosses_birthday_block")
+				}
+				if int32(common) < r.follow {
+					r.follow = 0 // only possible down to genesis
+				}
+			} else if o.Bday != nil {
+				r.follow = int32(o.Bday.H)
+				if r.follow <= 1 {
+					r.follow = 0 // genesis is stored since creation
+				}
+				if o.Bday.H > 0 {
+					r.tag("first_sync_birthday_above_genesis")
+				}
+			}
+			if notifyFail > 0 {
+				notifyFail--
+				r.tag("notifyblocks_fails")
+				close(rel)
+				continue
+			}
+			close(rel)
+			break attempts
+		case <-time.After(30 * time.Second):
+			o := r.observe(fmt.Errorf("syncWithChain did not reach the rescan request within 30s"))
+			r.push(event{K: "startup", First: first, Backend: r.backendRuns(), Site: "syncWithChain", Obs: o})
+			r.violate("startup_rollback_wrong_height", "syncWithChain", "start-up synchronisation does not complete")
+			return nil
 		}
-		okSynced := o.Synced.H == int64(common) && o.Synced.Hash == r.intern(before[common].Hash)
-		if tipOnChain {
-			okSynced = o.Synced.H == int64(len(before)-1) && o.Synced.Hash == r.intern(before[len(before)-1].Hash)
-		}
-		if !okSynced || !sameRecs(exp, o.Mined) {
-			r.violate("startup_rollback_wrong_height", "syncWithChain", fmt.Sprintf(
-				"last common block %d (wallet tip on chain: %v): synced-to (%d, #%d), confirmed records %v, expected %v",
-				common, tipOnChain, o.Synced.H, o.Synced.Hash, o.Mined, exp))
-		}
-		close(rel)
-	case <-time.After(30 * time.Second):
-		o := r.observe(fmt.Errorf("syncWithChain did not reach the rescan request within 30s"))
-		r.push(event{K: "startup", Backend: backend, Site: "syncWithChain", Obs: o})
-		r.violate("startup_rollback_wrong_height", "syncWithChain", "start-up synchronisation does not complete")
-		return nil
 	}
 
 	// 2. the rescan: relevant transactions, then RescanFinished (catchUpHashes)
@@ -885,11 +1241,17 @@ func runCase(in c15Input) (c15Case, error) {
 	var seed [32]byte
 	sum := sha256.Sum256([]byte(fmt.Sprintf("c15-wallet-%d", in.WalletSeed)))
 	copy(seed[:], sum[:])
-	env, err := walletenv.New(seed[:], time.Unix(1500000000, 0), 0, nil)
+	bday := time.Unix(1500000000, 0)
+	if in.Birthday != 0 {
+		// waddrmgr.Create stores the birthday minus 48 hours of safety margin
+		bday = time.Unix(1600000000+in.Birthday, 0).Add(48 * time.Hour)
+	}
+	env, err := walletenv.New(seed[:], bday, 0, nil)
 	if err != nil {
 		return c, err
 	}
 	r.env = env
+	r.pristine = true
 	defer func() {
 		if r.g != nil {
 			r.g.stop()
@@ -900,7 +1262,15 @@ func runCase(in c15Input) (c15Case, error) {
 	g := r.sc.At(0)
 	r.newBlockID(g)
 	r.notified = []*simchain.Block{g}
-	env.W.VerifSetChainClient(r.sc)
+	if in.Dispatch {
+		// the wallet's own goroutines run from the beginning
+		r.g = newGated(r.sc)
+		env.W.SynchronizeRPC(r.g)
+		r.tag("through_dispatch_goroutine")
+	} else {
+		env.W.VerifSetChainClient(r.sc)
+		r.tag("through_handler_hooks")
+	}
 	for i := 0; i < 3; i++ {
 		a, err := env.W.NewAddress(0, waddrmgr.KeyScopeBIP0084)
 		if err != nil {
@@ -914,7 +1284,7 @@ func runCase(in c15Input) (c15Case, error) {
 	r.push(event{K: "set_synced", Flag: true, Site: "SetChainSynced", Obs: r.observe(nil)})
 
 	for i, op := range in.Ops {
-		if len(r.oracle) > 0 {
+		if len(r.oracle) > 0 || r.stuck || r.dispErr != "" {
 			break
 		}
 		r.done = i + 1
@@ -931,16 +1301,19 @@ func runCase(in c15Input) (c15Case, error) {
 				r.relevantTx(op.Tx, false, nil, false)
 			}
 		case "birthday":
-			if err := r.setBirthday(); err != nil {
+			if err := r.setBirthday(op.Height); err != nil {
 				return c, err
 			}
 		case "offline":
-			if err := r.offline(op.Evos); err != nil {
+			if err := r.offline(op); err != nil {
 				return c, err
 			}
 		default:
 			return c, fmt.Errorf("unknown op %q", op.Op)
 		}
+	}
+	if r.dispErr != "" {
+		return c, fmt.Errorf("dispatch: %s", r.dispErr)
 	}
 	if len(r.oracle) > 0 {
 		// keep only what was executed: the replay stops at the violation anyway
@@ -981,6 +1354,12 @@ func genBlocks(r *gen.R, n int, pool int) []blockSpec {
 		case 2:
 			out[i].CB = "post"
 		}
+		switch r.Pick(10, 1, 1) {
+		case 1:
+			out[i].Filt = "pre"
+		case 2:
+			out[i].Filt = "post"
+		}
 	}
 	return out
 }
@@ -989,7 +1368,7 @@ func genStale(r *gen.R, streamLen int) []staleSpec {
 	var out []staleSpec
 	n := r.Pick(6, 3, 2, 1)
 	for i := 0; i < n; i++ {
-		kind := []string{"repeat", "repeat", "future", "wrong", "gap"}[r.Pick(4, 2, 2, 2, 1)]
+		kind := []string{"repeat", "repeat", "future", "wrong", "gap", "rescan_progress", "rescan_finished"}[r.Pick(4, 2, 2, 2, 1, 1, 1)]
 		out = append(out, staleSpec{At: r.Range(0, streamLen+1), Kind: kind, Arg: r.Range(0, 20)})
 	}
 	return out
@@ -998,17 +1377,44 @@ func genStale(r *gen.R, streamLen int) []staleSpec {
 func genCase(seed int64, idx int, long bool) c15Input {
 	r := gen.New(seed, int64(1500+idx))
 	in := c15Input{WalletSeed: seed*100000 + int64(idx)}
+	in.Dispatch = r.Chance(1, 2)
 	pool := r.Range(3, 8)
-	if r.Chance(2, 3) {
-		in.Ops = append(in.Ops, opSpec{Op: "birthday"})
-	}
-	// initial extension so that reorgs have something to replace
-	n0 := r.Range(2, 6)
-	in.Ops = append(in.Ops, opSpec{Op: "evolve", Evo: &evoSpec{Blocks: genBlocks(r, n0, pool)}})
-	height := n0
-	if long {
-		in.Ops = append(in.Ops, opSpec{Op: "offline", Evos: []evoSpec{{Depth: r.Range(0, 2), Bulk: waddrmgr.MaxReorgDepth + r.Range(-3, 8)}}})
-		height += waddrmgr.MaxReorgDepth
+	height := 0
+	switch {
+	case !long && r.Chance(1, 4):
+		// first synchronisation: the chain exists before the wallet is started
+		// for the first time; the wallet's birthday lies near block kb
+		// (locateBirthdayBlock accepts any block within two hours = 12 blocks)
+		n0 := r.Pick(3, 3, 2, 2) // how long the chain is: 2-4, 5-12, 13-30, 31-60 blocks
+		n := []int{r.Range(2, 4), r.Range(5, 12), r.Range(13, 30), r.Range(31, 60)}[n0]
+		kb := r.Range(0, n+3)
+		in.Birthday = int64(600*kb + r.Range(-299, 299))
+		if in.Birthday == 0 {
+			in.Birthday = 1
+		}
+		nb := n
+		if nb > 8 {
+			nb = 8
+		}
+		in.Ops = append(in.Ops, opSpec{Op: "offline", First: true,
+			Evos: []evoSpec{{Bulk: (n - nb) / 2}, {Blocks: genBlocks(r, nb, pool)}, {Bulk: n - nb - (n-nb)/2}}})
+		height = n
+	default:
+		pinned := r.Pick(3, 6, 3) // no birthday block; at genesis; at a later block (old wallet after migration)
+		if pinned == 1 {
+			in.Ops = append(in.Ops, opSpec{Op: "birthday"})
+		}
+		// initial extension so that reorgs have something to replace
+		n0 := r.Range(2, 6)
+		in.Ops = append(in.Ops, opSpec{Op: "evolve", Evo: &evoSpec{Blocks: genBlocks(r, n0, pool)}})
+		height = n0
+		if pinned == 2 {
+			in.Ops = append(in.Ops, opSpec{Op: "birthday", Height: r.Range(1, n0)})
+		}
+		if long {
+			in.Ops = append(in.Ops, opSpec{Op: "offline", Evos: []evoSpec{{Depth: r.Range(0, 2), Bulk: waddrmgr.MaxReorgDepth + r.Range(-3, 8)}}})
+			height += waddrmgr.MaxReorgDepth
+		}
 	}
 	nops := r.Range(3, 9)
 	for i := 0; i < nops; i++ {
@@ -1017,8 +1423,11 @@ func genCase(seed int64, idx int, long bool) c15Input {
 			n := r.Range(1, 5)
 			in.Ops = append(in.Ops, opSpec{Op: "evolve", Evo: &evoSpec{Blocks: genBlocks(r, n, pool)}, Stale: genStale(r, 2*n)})
 			height += n
-		case 1: // reorg depth 1-8
+		case 1: // reorg depth 1-8, sometimes 9-25
 			d := r.Range(1, 8)
+			if r.Chance(1, 8) {
+				d = r.Range(9, 25)
+			}
 			if d > height {
 				d = height
 			}
@@ -1026,7 +1435,13 @@ func genCase(seed int64, idx int, long bool) c15Input {
 			if n < 0 {
 				n = 0
 			}
-			in.Ops = append(in.Ops, opSpec{Op: "evolve", Evo: &evoSpec{Depth: d, Blocks: genBlocks(r, n, pool)}, Stale: genStale(r, d+2*n)})
+			e := &evoSpec{Depth: d}
+			if n > 8 {
+				e.Blocks, e.Bulk = genBlocks(r, 8, pool), n-8
+			} else {
+				e.Blocks = genBlocks(r, n, pool)
+			}
+			in.Ops = append(in.Ops, opSpec{Op: "evolve", Evo: e, Stale: genStale(r, d+2*n)})
 			height += n - d
 		case 2:
 			in.Ops = append(in.Ops, opSpec{Op: "unmined", Tx: r.Range(1, pool)})
@@ -1041,7 +1456,28 @@ func genCase(seed int64, idx int, long bool) c15Input {
 				evos = append(evos, evoSpec{Depth: d, Blocks: genBlocks(r, n, pool)})
 				height += n - d
 			}
-			in.Ops = append(in.Ops, opSpec{Op: "offline", Evos: evos})
+			op := opSpec{Op: "offline", Evos: evos}
+			if r.Chance(1, 4) && height >= 2 {
+				// the backend ends up LOWER than the wallet; it catches up
+				// (in one or two steps) after the start-up attempt has failed
+				d := r.Range(1, 5)
+				if d > height {
+					d = height
+				}
+				n := 0 // the backend is a proper prefix of the wallet's chain ...
+				if r.Chance(1, 2) {
+					n = r.Range(0, d-1) // ... or on another branch
+				}
+				op.Evos = append(op.Evos, evoSpec{Depth: d, Blocks: genBlocks(r, n, pool), Shorter: true})
+				k := d - n + r.Range(0, 2)
+				if k >= 2 && r.Chance(1, 2) {
+					op.Then = []evoSpec{{Blocks: genBlocks(r, 1, pool)}, {Blocks: genBlocks(r, k-1, pool)}}
+				} else {
+					op.Then = []evoSpec{{Blocks: genBlocks(r, k, pool)}}
+				}
+				height += n - d + k
+			}
+			in.Ops = append(in.Ops, op)
 		case 4: // only stale notifications
 			in.Ops = append(in.Ops, opSpec{Op: "evolve", Evo: &evoSpec{}, Stale: genStale(r, 0)})
 		}
@@ -1049,12 +1485,57 @@ func genCase(seed int64, idx int, long bool) c15Input {
 	return in
 }
 
-// the S1 witness of DESIGN section 6, always run first
-func witnessCase() c15Input {
-	return c15Input{WalletSeed: 15, Ops: []opSpec{
-		{Op: "evolve", Evo: &evoSpec{Blocks: make([]blockSpec, 5)}},
-		{Op: "evolve", Evo: &evoSpec{Depth: 2}},
-	}}
+// fixed inputs, always run first: the S1 witness of DESIGN section 6, and one
+// input per start-up path / dispatch-only notification (review round 3).
+func witnessCases() []c15Input {
+	plain := func(n int) []blockSpec { return make([]blockSpec, n) }
+	return []c15Input{
+		// S1: connect 1..5, disconnect 5, disconnect 4
+		{WalletSeed: 15, Ops: []opSpec{
+			{Op: "evolve", Evo: &evoSpec{Blocks: plain(5)}},
+			{Op: "evolve", Evo: &evoSpec{Depth: 2}},
+		}},
+		// first synchronisation, birthday block well above genesis (through the
+		// dispatch goroutine afterwards: FilteredBlockConnected, rescan
+		// notifications in the middle of a reorganisation)
+		{WalletSeed: 1501, Dispatch: true, Birthday: 7200, Ops: []opSpec{
+			{Op: "offline", First: true, Evos: []evoSpec{{Bulk: 9}, {Blocks: []blockSpec{{Post: []int{1}}, {}, {Post: []int{2}}, {}, {}, {Pre: []int{3}}, {}, {Post: []int{4}}}}, {Bulk: 9}}},
+			{Op: "evolve", Evo: &evoSpec{Depth: 3, Blocks: []blockSpec{{Pre: []int{1}, Filt: "pre"}, {Post: []int{5}, CB: "post", Filt: "post"}, {}, {}}},
+				Stale: []staleSpec{{At: 2, Kind: "rescan_progress", Arg: 0}, {At: 4, Kind: "rescan_finished", Arg: 1}, {At: 9, Kind: "rescan_progress", Arg: 2}}},
+		}},
+		// first synchronisation with the birthday block at height 1, then every
+		// block above genesis is replaced while the wallet is stopped: the
+		// start-up rollback crosses the birthday block
+		{WalletSeed: 1502, Birthday: 600, Ops: []opSpec{
+			{Op: "offline", First: true, Evos: []evoSpec{{Blocks: []blockSpec{{Post: []int{1}}, {Post: []int{2}}, {}}}}},
+			{Op: "offline", Evos: []evoSpec{{Depth: 3, Blocks: []blockSpec{{}, {Post: []int{2}}, {}, {}}}}},
+		}},
+		// an old wallet (all hashes since genesis) whose birthday block is block
+		// 4; blocks 3.. are replaced while it is stopped
+		{WalletSeed: 1503, Ops: []opSpec{
+			{Op: "evolve", Evo: &evoSpec{Blocks: []blockSpec{{Post: []int{1}}, {Post: []int{2}}, {}, {}, {Post: []int{3}}, {}}}},
+			{Op: "birthday", Height: 4},
+			{Op: "offline", Evos: []evoSpec{{Depth: 4, Blocks: []blockSpec{{}, {Post: []int{2}}, {}, {}, {}}}}},
+		}},
+		// the backend comes back two blocks LOWER (a proper prefix of the
+		// wallet's chain), then grows on another branch
+		{WalletSeed: 1504, Dispatch: true, Ops: []opSpec{
+			{Op: "evolve", Evo: &evoSpec{Blocks: []blockSpec{{Post: []int{1}}, {Post: []int{2}}, {}, {}, {Post: []int{3}}, {}}}},
+			{Op: "offline", Evos: []evoSpec{{Depth: 2, Shorter: true}}, Then: []evoSpec{{Blocks: plain(1)}, {Blocks: []blockSpec{{}, {Post: []int{3}}, {}}}}},
+		}},
+		// the fork point lies below the first synchronisation's birthday block:
+		// the wallet has no hash for it
+		{WalletSeed: 1505, Birthday: 18000, Ops: []opSpec{
+			{Op: "offline", First: true, Evos: []evoSpec{{Blocks: []blockSpec{{Post: []int{1}}}, Bulk: 40}}},
+			{Op: "offline", Evos: []evoSpec{{Depth: 30, Bulk: 32}}},
+		}},
+		// NotifyBlocks fails once after the first synchronisation's transaction
+		// has committed: waitForSync repeats the attempt with the same nil
+		// birthday argument
+		{WalletSeed: 1506, Birthday: 18000, Ops: []opSpec{
+			{Op: "offline", First: true, NotifyFail: 1, Evos: []evoSpec{{Blocks: []blockSpec{{Post: []int{1}}}, Bulk: 40}}},
+		}},
+	}
 }
 
 func main() {
@@ -1079,7 +1560,7 @@ func main() {
 				return err
 			}
 		} else {
-			inputs = append(inputs, witnessCase())
+			inputs = append(inputs, witnessCases()...)
 			nlong := 1
 			if c.Tier == "thorough" {
 				nlong = 6
